@@ -912,6 +912,11 @@ func (e *Ev) evType(x ast.Expr) types.Type {
 		}
 	case *ast.ParenExpr:
 		return e.evType(n.X)
+	case *ast.MapType:
+		k, v := e.evType(n.Key), e.evType(n.Value)
+		if k != nil && v != nil {
+			return types.NewMap(k, v)
+		}
 	}
 	return nil
 }
